@@ -104,19 +104,32 @@ func (g *gen) oddFragmentHeaders(w *world) {
 func (g *gen) tagsScenario(w *world) {
 	w.parties = map[string]*party{}
 	w.dead = false
-	// own tags are preset (InitializeInstanceTag) so that the receiver tag comparison is exercised from the first message on
+	// own tags are preset (InitializeInstanceTag) so that the receiver tag comparison is exercised from the first message on;
+	// one target in three has drawn no own tag yet (it has sent no OTRv3 message, nobody asked for its tag): a receiver tag
+	// other than zero then names a sibling instance, whatever its value. (The own tag is only ever read through the
+	// snapshot: GetOurInstanceTag draws one.)
+	btag := 0x100 + g.r.Uint32()%0xfffffe00
+	if g.r.Intn(3) == 0 {
+		btag = 0
+	}
 	a := w.newParty(partyCfg{policies: 4, keyIdx: 0, errh: g.r.Intn(2) == 0, tag: 0x100 + g.r.Uint32()%0xfffffe00, fragSize: []int{0, 0, 90, 200}[g.r.Intn(4)]})
-	b := w.newParty(partyCfg{policies: 4, keyIdx: 1, errh: g.r.Intn(2) == 0, tag: 0x100 + g.r.Uint32()%0xfffffe00})
+	b := w.newParty(partyCfg{policies: 4, keyIdx: 1, errh: g.r.Intn(2) == 0, tag: btag})
 	l := &link{w: w, a: a, b: b}
 	// three states: nothing seen yet / committed to OTRv3 but not bound to a peer instance / bound
 	st := g.r.Intn(4)
+	if btag == 0 && st >= 2 && g.r.Intn(2) == 0 {
+		st = 0 // (a conversation that has completed a key exchange has drawn its tag)
+	}
 	bound := st >= 2
 	committed, preset := st == 1, false
 	if committed {
 		if preset = g.r.Intn(3) == 0; preset {
 			// created for OTRv3 by the client (NewConversationWithVersion)
 			delete(w.parties, b.id)
-			b = w.newParty(partyCfg{version: 3, policies: 4, keyIdx: 1, errh: g.r.Intn(2) == 0, tag: 0x100 + g.r.Uint32()%0xfffffe00})
+			if btag != 0 {
+				btag = 0x100 + g.r.Uint32()%0xfffffe00
+			}
+			b = w.newParty(partyCfg{version: 3, policies: 4, keyIdx: 1, errh: g.r.Intn(2) == 0, tag: btag})
 			l.b = b
 		} else {
 			// has received the query and sent its D-H Commit, which is still on its way
@@ -163,6 +176,14 @@ func (g *gen) tagsScenario(w *world) {
 			// valid tags naming a stranger (or somebody claiming to be the peer), addressed to this instance or to nobody
 			s, r = []uint32{0x100, 0x12345678, peer, 0x100 + g.r.Uint32()%0xfffffe00}[g.r.Intn(4)], []uint32{0, own}[g.r.Intn(2)]
 		}
+		if otr3.VerifSnapshot(b.c).OurTag == 0 && g.r.Intn(4) < map[bool]int{true: 3, false: 2}[trial == 0] {
+			// no own tag yet: traffic of a valid sender addressed to a sibling instance (what the peer sends once it is
+			// bound to the user's other client) - a D-H Commit, a data message, a whole or a first fragment
+			s = []uint32{0x100, 0x12345678, peer, 0x100 + g.r.Uint32()%0xfffffe00}[g.r.Intn(4)]
+			r = []uint32{0x100, 0x12345678, 0xffffffff, 0x100 + g.r.Uint32()%0xfffffe00}[g.r.Intn(4)]
+			kind = []int{0, 1, 2, 3}[g.r.Intn(4)]
+			g.dist["tags:no-own-tag-yet:sibling-instance-traffic"]++
+		}
 		m := tagMsg(kind, s, r, g)
 		// the routing helper reports exactly the two tags the message or fragment carries
 		if xo, xt, xok := xtags(w, m); !xok || xo != r || xt != s {
@@ -185,8 +206,9 @@ func (g *gen) tagsScenario(w *world) {
 		}
 		olog.ok("C15")
 		wellFormed := s >= 0x100 && (r == 0 || r >= 0x100)
-		foreign := (r != 0 && r != before.OurTag && before.OurTag != 0) || (before.TheirTag != 0 && s != before.TheirTag)
-		desc := fmt.Sprintf("kind %d sender %x receiver %x (own %x, bound peer %x): plain=%v replies=%d change=%s", kind, s, r, before.OurTag, before.TheirTag, plain != nil, len(ts), snapDiff(before, after))
+		// (while no own tag exists every receiver tag other than zero names another instance)
+		foreign := (r != 0 && r != before.OurTag) || (before.TheirTag != 0 && s != before.TheirTag)
+		desc := fmt.Sprintf("kind %d sender %x receiver %x (own %x, bound peer %x): plain=%v replies=%d err=%v change=%s; message %.70q", kind, s, r, before.OurTag, before.TheirTag, plain != nil, len(ts), rerr, snapDiff(before, after), m)
 		if !wellFormed {
 			if after.TheirTag != before.TheirTag {
 				olog.viol("C15", "malformed-tag-binds-peer", desc)
